@@ -235,6 +235,10 @@ func c25(r *vkit.Run) {
 			SubClusters: []e2e.SubCluster{{Name: "sub1", Weight: 100, Backends: []e2e.Backend{{Name: "b1", Addr: be.Addr, Port: be.Port, Weight: 10}}}},
 		}},
 		DefaultProduct: "p_c25",
+		// any host (also hostile ones that fall to the default product) is routed to the backend
+		Files: map[string]string{
+			"server_data_conf/route_rule.data": `{"Version":"v1","ProductRule":{"p_c25":[{"Cond":"default_t()","ClusterName":"c25"}]}}`,
+		},
 	})
 	if err != nil {
 		r.Inconclusive("server start: " + err.Error())
